@@ -1,19 +1,33 @@
-(* Property theorems (partial: the timed loop variant; requests at every pc and the step on an arriving element): the goroutine body of v2 join translated from the CURRENT Go sources (GenConcJoinV2.v) versus Join.jstep. *)
+(* Property theorems: the goroutine body of v2 join, translated from the CURRENT Go sources (GenConcJoinV2.v) and run by GoConc.v, simulates the hand-written timed machine Join.jstep (variant JoinV2, timed and untimed loop): same request at every pc, same successor after every event (element, tick, close of the input, completed send, release), same initial state. *)
 From Coq Require Import List NArith ZArith Bool. From Cqos Require Import GoSem GoConc Join GenJoinV2 GenConcJoinV2 GenTieConcJoinV2. Import ListNotations. Open Scope Z_scope.
 Theorem C03_gen_conc_join_v2_request :
-  forall (s : jst) (dsc : Discipline) (g : G) (w : nat),
-         step1 table (dsc, g, w, stack (pc s)) = Block (jrequest s g).
+  forall (c : jcfg) (s : jst) (dsc : Discipline) (g : G) (n : nat) (w : cause),
+         step1 table (dsc, g, n, stack (md c) (pc s) w) = Block (jrequest c s g).
 Proof. exact @blocked. Qed.
 Print Assumptions C03_gen_conc_join_v2_request.
 
-Theorem C03_gen_conc_join_v2_in :
+Theorem C03_gen_conc_join_v2_init :
+  forall (c : jcfg) (t0 : Z) (dsc : Discipline) (g : G) (n : nat),
+         N.to_nat (Opts_JoinSize (Discipline_opts dsc)) = jsize c ->
+         Opts_NoCopy (Discipline_opts dsc) = nocopy c ->
+         Opts_Timeout (Discipline_opts dsc) = timeout c ->
+         Discipline_interruptInterval dsc = interval c ->
+         Discipline_join dsc = [] ->
+         G_dsc_passAt g = t0 ->
+         exists cf' : config cstate payload chan_id fname,
+           movesJ (init_answers c) (start table (dsc, g, n) F_main) cf' /\ R c (jinit t0) cf'.
+Proof. exact @conc_init. Qed.
+Print Assumptions C03_gen_conc_join_v2_init.
+
+Theorem C03_gen_conc_join_v2_simulates :
   forall c : jcfg,
          variant_of c = JoinV2 ->
-         forall (s : jst) (t : Z) (x : N) (cf : cfgT),
+         forall (s : jst) (e : jev) (s' : jst) (out : list emission) (cf : cfgT),
          R c s cf ->
-         pc s = Loop ->
-         exists cf' : config cstate payload chan_id fname,
-           reachesJ (GoConc.resume cf (AnsSel 1 (Some (PN x)))) cf' /\ R c (process c s t [(Z.of_N x, t)]) cf'.
-Proof. exact @sim_in. Qed.
-Print Assumptions C03_gen_conc_join_v2_in.
+         jstep c s e = Some (s', out) ->
+         (forall (t : Z) (xs : list elem), e = In t xs -> exists (x : N) (t' : Z), xs = [(Z.of_N x, t')]) ->
+         (forall t : Z, e = Tick t -> i_range (t - passAt s)) ->
+         exists cf' : config cstate payload chan_id fname, movesJ (janswers c s e) cf cf' /\ R c s' cf'.
+Proof. exact @conc_simulates_jstep. Qed.
+Print Assumptions C03_gen_conc_join_v2_simulates.
 
